@@ -1,4 +1,5 @@
 import CvModel.Script
+import CvProps.C20b
 /-!
 # C20 — the scripting interface is total; command bodies run only with an admissible number of arguments
 
